@@ -224,3 +224,20 @@ reg(
     TECHNIQUE="history monitoring: per-origin request log vs origin-equality + strip-set oracle",
     REQUIRED_MONITORS={"quick": {"case": 5000, "request_headers": 8000, "pool_host_guard": 100}, "thorough": {"case": 10**5, "request_headers": 10**5}},
 )
+
+reg(
+    "C01",
+    LEVEL="fault_enumeration",
+    RULE="histories of 1-3 requests on one pool, each request a script of 1-3 per-attempt outcomes drawn from {connect refused / timeout / other OSError / KeyboardInterrupt / bare BaseException; send EPIPE / ECONNRESET / EIO / interrupt at the 1st or 2nd send; receive timeout / reset / EOF / garbage / TLS error / KeyboardInterrupt / SystemExit / BaseException before the status line; interrupt or OSError from the pool's liveness probe at checkout; responses 200 keep-alive / close / chunked / close-delimited / short body / fault or interrupt in the middle of the body; 204; 302/303/307 to the same host; 503 force-listed keep-alive or close; 429+Retry-After; 500}, each response disposed by one of 11 ways (read, read part then release, release unread, drain, close, part then close, stream, read1 loop, context manager, .data, drain+release) immediately or late (overlapping leases); configurations pool kind {direct, forwarding proxy, CONNECT tunnel with fake TLS} x maxsize {1,2,3} x block x 6 retry policies x preload_content x release_conn; single-outcome product enumerated (strided in quick) plus random histories; a case is (configuration, history); all non-trivial",
+    ASSUMPTIONS=COMMON_ASSUMPTIONS + [
+        "'closed' means explicitly closed at the quiescent point, without waiting for garbage collection",
+        "after a read raised, the harness calls release_conn() on that response (as the statement's 'read, released or closed' requires some disposal)",
+        "BaseException is injected at the connect / send / receive steps named by the quantifier, not at arbitrary bytecodes",
+    ],
+    SHARDS={"quick": 8, "thorough": 16},
+    BUDGET={"quick": 60, "thorough": 480},
+    LEVEL_TEXT="Fault enumeration with runtime monitors at quiescent points: after every request and every disposal a sequential slot model (leased + queued = maxsize; at quiescence queued = maxsize) is compared with the pool's queue, the queue is checked for duplicate connection objects, every socket ever created must be idle in the pool, leased, or explicitly closed, dial events on block=True pools must never exceed maxsize open sockets, every exception reaching the caller must be a urllib3 HTTPError, and an injected BaseException must surface as the identical object; a lease probe checks the public behaviour (N leases, N+1 raises EmptyPoolError).",
+    LEVEL_NOTE="Trusts the in-memory network's socket life-cycle bookkeeping and the slot model; reads pool.pool.queue (the LIFO queue's list) at quiescent points only.",
+    TECHNIQUE="fault injection at every I/O step + invariant monitors at quiescent points (slot conservation, socket life-cycle, exception-class and interrupt-identity oracles)",
+    REQUIRED_MONITORS={"quick": {"quiescent_point": 20000, "request": 10000, "disposal": 5000, "open_socket_bound": 5000, "interrupt_identity": 200, "lease_probe": 300}, "thorough": {"quiescent_point": 10**5, "request": 10**5}},
+)
